@@ -24,6 +24,7 @@ From Coq Require Import List NArith Arith Bool Strings.String.
 From V Require Import Base.Bytes Base.Res Model.Ast Model.Strings Model.Feed Model.FrontMatter Model.RefDef Model.Blocks
   Spec.LineEndings Spec.Valid Spec.EscapeSpec Proofs.FeedProofs Proofs.ValidProofs Proofs.BlocksProofs Proofs.BlocksCursor
   Proofs.BlocksTight Proofs.RefDefTitle Proofs.BlocksTotal.
+From V Require Proofs.BlocksTotal2Safe Proofs.BlocksTotal2Root Proofs.BlocksTotal2Tree.
 Import ListNotations.
 Local Open Scope string_scope.
 Local Open Scope list_scope.
@@ -259,3 +260,45 @@ Example Blocks_example :
             blocks_tree opts_default (to_crlf x) = blocks_tree opts_default x /\
             List.length (bkids (br_root r)) = 3.
 Proof. vm_compute. eexists. repeat split. Qed.
+
+(* ---- totality, second round (Proofs/BlocksTotal2*.v): the TREE side, for EVERY input and state.
+   tree_sites (Proofs/BlocksTotal2Safe.v) = the Panic sites that are tree lookups: model:no-such-node, the unwraps of
+   a parent / of the result of finalize in check_open_blocks, parse_code_block_prefix,
+   parse_multiline_block_quote_prefix, parse_desc_list_details, add_text_to_container (container),
+   finalize_document, feed, and insert_after without parent.  `safe Q r`: r = Ok a -> Q a, r = Panic s -> s is not
+   one of them.  W o st = identifiers pairwise distinct and below ps_next, block values, table shape (TI), the
+   containment relation (SV), the root has identifier 0 (R0); `has st x` = x is the identifier of a node.
+   PROVED: the root keeps identifier 0 through every step; finalize and the closing loop of add_child, from a
+   state with W and a node that is present, never fail at a tree site, keep W, return the parent, and remove at
+   most the node itself and only if it is a paragraph (the reference-definition-only case: a leaf).
+   NOT YET carried through check_open_blocks / open_new_blocks / add_text_to_container (the walk needs, per
+   handler, that the container handed on is present and is a paragraph only if it is the last matched one), so
+   the end-to-end statement `parse_blocks o x <> Panic s` for s in tree_sites is still open; the two
+   assert!(ast.open) sites and add_text_to_container:self.finalize(self.current).unwrap() additionally need the
+   chain of open nodes from the root to ps_current. *)
+Theorem Blocks_total_partial_root_id : forall o x r,
+  parse_blocks o x = Ok r -> bid (br_root r) = root_id.
+Proof. exact BlocksTotal2Tree.parse_blocks_root_id. Qed.
+Print Assumptions Blocks_total_partial_root_id.
+
+Theorem Blocks_total_partial_finalize_tree : forall o st id,
+  BlocksTotal2Tree.W o st -> BlocksTotal2Tree.has st id ->
+  BlocksTotal2Safe.safe
+    (fun r => BlocksTotal2Tree.W o (snd r) /\ BlocksTotal2Tree.FIN st id (fst r) (snd r))
+    (finalize o st id).
+Proof. exact BlocksTotal2Tree.finalize_tree_safe. Qed.
+Print Assumptions Blocks_total_partial_finalize_tree.
+
+Theorem Blocks_total_partial_add_child_loop_tree : forall o k fuel st parent,
+  BlocksTotal2Tree.W o st -> BlocksTotal2Tree.has st parent ->
+  BlocksTotal2Safe.safe
+    (fun r => BlocksTotal2Tree.W o (snd r) /\ BlocksTotal2Tree.has (snd r) (fst r)
+              /\ BlocksTotal2Tree.lose parent st (snd r)
+              /\ (BlocksTotal2Tree.ispara st parent = false -> BlocksTotal2Tree.same st (snd r)))
+    (add_child_loop fuel o st parent k).
+Proof. exact BlocksTotal2Tree.add_child_loop_tree_safe. Qed.
+Print Assumptions Blocks_total_partial_add_child_loop_tree.
+
+Theorem Blocks_total_partial_init_state : forall o, BlocksTotal2Tree.W o init_state.
+Proof. exact BlocksTotal2Tree.W_init. Qed.
+Print Assumptions Blocks_total_partial_init_state.
